@@ -13,5 +13,33 @@ NOTE = {
 }
 
 
+C17_EFFECT = ("; (b) effect: program A1 of the compiled routing corpus has handler arguments carrying a forwarded serde(default) (plain, and "
+              "wrapped in cfg_attr(all(), ..)) in interface and contract handlers of every kind: documents leaving those arguments out are "
+              "delivered through the entry points and the multitest impl, must be accepted, and the handler must be handed the default")
+
+
 def run(prop, tier, seed, replay):
-    return static.run_property(prop, tier, seed, NOTE[prop], with_real=False, second_run=False)
+    if prop != "C17":
+        return static.run_property(prop, tier, seed, NOTE[prop], with_real=False, second_run=False)
+    import time
+    from .. import common
+    from ..common import read_ndjson
+    from . import routing
+    t0 = time.time()
+    rep = common.Report(prop)
+    sp = static.pipeline(prop, tier, seed, ["fw"])
+    static.validate(prop, sp, rep)
+    rp = routing.pipeline(tier, seed)
+    rv = routing.validate(prop, rp, rep)
+    rc = rep.finish()
+    evs = read_ndjson(sp["trace"])
+    ndrop = sum(1 for x in rp["progs"] for st in x["stim"] if st.get("body") == "dropdefault")
+    if ndrop == 0:
+        raise common.ToolError("no document leaving out a defaulted argument was generated")
+    cov = {"states": sp["model"]["distinct"] + rp["model"]["distinct"], "transitions": sp["model"]["generated"] + rp["model"]["generated"],
+           "traces_validated_against_impl": len(evs) + len(rp["progs"]),
+           "items_expanded_in_process": len(sp["items"]), "programs_compiled": len(rp["progs"]), "trace_events": rv["events"],
+           "documents_leaving_out_defaulted_arguments": ndrop * 2,
+           "samples": [static.slim(evs[0])] + routing.samples(rp, 1)[:1], "exhaustive": False, "explanation": NOTE["C17"] + C17_EFFECT}
+    common.write_evidence(prop, tier, seed, cov, time.time() - t0, len(rep.violations))
+    return rc
